@@ -185,3 +185,13 @@ Proof.
   split; [eexists; repeat split; vm_compute; reflexivity|]. split; [|reflexivity].
   cbv zeta. split; [repeat constructor|]. split; vm_compute; reflexivity.
 Qed.
+
+(* odiag_remove_sem is not vacuous: '$OMEGA 0.1 0.2 0.3' (Refuted.w_o3), remove the middle item *)
+Example odiag_remove_example :
+  items_are_trees (children w_o3) = true
+  /\ forallb (fun c => match item_n (children c) with Ok n => N.eqb n 1 | Err _ => false end) (items_of w_o3) = true
+  /\ osem Z demo w_o3 = Ok [mkO 1%Z false; mkO 2%Z false; mkO 3%Z false]
+  /\ osem Z demo (odiag_remove w_o3 [1%nat]) = Ok [mkO 1%Z false; mkO 3%Z false]
+  (* with a (v)xn item the hypothesis fails: '$OMEGA (0.1 FIX)x3' *)
+  /\ forallb (fun c => match item_n (children c) with Ok n => N.eqb n 1 | Err _ => false end) (items_of w_oxn) = false.
+Proof. repeat split; vm_compute; reflexivity. Qed.
